@@ -36,6 +36,17 @@ theorem err_lost_before_fix_decode :
       (run (init false [.bad]) sched).sawFalse = true ∧ (run (init false [.bad]) sched).errSeen = false :=
   ⟨[.d, .d, .c, .c, .u], by decide⟩
 
+/-- why `err_never_lost` speaks of runs without cancellation, and what goes wrong if a goroutine
+cancels the shared context BEFORE it registers its error (seeded change agent3-C05): the other
+goroutine leaves through its `ctx.Done()` arm, closes the pipe, and the consumer sees `false` while
+the error is not registered yet -/
+theorem cancel_before_registration_loses_error :
+    ∃ (sched : List Pid),
+      (run (init true [.good, .good, .good, .cut]) sched).dFailed = true ∧
+      (run (init true [.good, .good, .good, .cut]) sched).sawFalse = true ∧
+      (run (init true [.good, .good, .good, .cut]) sched).errSeen = false :=
+  ⟨[.d, .d, .c, .c, .d, .d, .c, .c, .d, .d, .c, .d, .cancel, .c, .c, .c, .u, .u, .u], by decide⟩
+
 /-- **a layer above**: a worker that, after the lower iterator's `Next()` returned false, records
 the lower `Err()` and only then closes its own channel hands the error on: if the lower layer
 guarantees "false ⇒ error visible", so does the upper one.  (`lowerErr` is what `chunks.Err()`
